@@ -12,7 +12,8 @@ CONSTANT Emit
 
 (* ---------------- cells ---------------- *)
 OwnCells  == {[m |-> "own", msg |-> r.id, signer |-> s] : r \in OwnerRows, s \in Signers}
-PrivCells == {[m |-> "priv", v |-> x.v, chain |-> c, sender |-> s] : x \in Variants, c \in Chains, s \in Senders}
+(* des = the contract the statement designates for the variant (tells the harness which cell is the non-vacuity reference) *)
+PrivCells == {[m |-> "priv", v |-> x.v, chain |-> c, sender |-> s, des |-> Designated(x.cls)] : x \in Variants, c \in Chains, s \in Senders}
 KillCells == {[m |-> "kill", sender |-> s] : s \in KillSenders}
 
 ExecRows    == {r \in Rows : r.exec}
@@ -76,5 +77,5 @@ DesignC14 ==
   /\ cell.m = "ctl"  => (MustReject(Row(cell.h), cell.prod, CtlOf(cell)) => ~res.ok)
   /\ cell.m = "hook" => (HookMustIdle(cell.hook, Ctl(cell.breaker, cell.esm, {})) => ~res.ok)
 (* the named deviation: outside the two known networks the dispatcher has no sender guard at all *)
-FailOpenElsewhere == cell.m = "priv" => (PrivilegedElsewhere(cell.chain, cell.sender, res.ok) <=> cell.chain \in MainTest)
+FailOpenElsewhere == cell.m = "priv" => (PrivilegedElsewhere(cell.chain, cell.sender, res.ok) <=> (cell.chain \in MainTest \/ cell.sender = "admin"))
 =============================================================================
